@@ -292,6 +292,34 @@ func runC10(c *core.Ctx) core.Meta {
 		}
 	}
 
+	// ---------------- R10.9 re-homing a page returns its old physical page ----------------
+	st9 := c.Rule("R10.9", "a function of the allocator that maps an already mapped virtual page onto a new physical page (pageTable.Update) returns the page's previous physical page to its device (addSinglePAddr of the mirror's old entry): otherwise every Remap / migration leaks one physical page and sequences that stay within capacity run out of memory", 2)
+	for _, fn := range pint.Funcs {
+		var updates []ssa.Instruction
+		releases := false
+		for _, b := range fn.Blocks {
+			for _, in := range b.Instrs {
+				if _, ok := isPageTableCall(in, "Update"); ok {
+					updates = append(updates, in)
+				}
+				if cc := core.CallOf(in); cc != nil && cc.IsInvoke() && cc.Method.Name() == "addSinglePAddr" {
+					if strings.Contains(prov.Of(cc.Args[0]), "vAddrToPageMapping[") {
+						releases = true
+					}
+				}
+			}
+		}
+		for _, in := range updates {
+			st9.Instances++
+			c.MarkAnalysed(fn)
+			st9.Ob(releases)
+			st9.Sample("%s: re-maps a virtual page; releases the previous physical page: %v", core.FuncName(fn), releases)
+			if !releases {
+				c.ReportAt("R10.9", fn, in.Pos(), "remap:old-page-leaked", core.FuncName(fn)+" points an already mapped virtual page at a freshly allocated physical page and never returns the previous physical page to its device: each call leaks a page, and bouncing one page between two devices exhausts both memories")
+			}
+		}
+	}
+
 	// ---------------- R10.4 no container mutated while ranged ----------------
 	st4 := c.Rule("R10.4", "a `for … range X` loop whose body reassigns X (remove-while-iterating) leaves the loop right after the assignment (return or break); otherwise elements are skipped or the stale length indexes past the end", 1)
 	for _, p := range []*PkgInfo{pd, pint} {
